@@ -108,12 +108,19 @@ def gen_case(seed, idx):
     elif defect == "D5":
         names = ["emoji_u41.svg", "emoji_u42.svg", "emoji_u43.svg"]
         srcs = {"thin/" + n: "corpus:vf/thin61.svg" for n in names[:2]}
-        bad = {"bold/" + names[0]: "corpus:vf/bold61.svg", "bold/" + names[2]: "corpus:vf/bold61.svg"}
+        shape = r.choice(["different", "later-lacks-one", "later-has-extra"])
+        if shape == "different":
+            bad = {"bold/" + names[0]: "corpus:vf/bold61.svg", "bold/" + names[2]: "corpus:vf/bold61.svg"}
+        elif shape == "later-lacks-one":
+            bad = {"bold/" + names[0]: "corpus:vf/bold61.svg"}
+        else:
+            bad = {"bold/" + n: "corpus:vf/bold61.svg" for n in names}
         toml = gen.toml_config(
             {"output_file": "Font.ttf", "color_format": fmt},
             None,
-            masters={"thin": {"style_name": "Thin", "srcs": ["thin/*.svg"], "position": {"wght": 300}},
-                     "bold": {"style_name": "Bold", "srcs": ["bold/*.svg"], "position": {"wght": 700}}},
+            masters=dict(sorted({"thin": {"style_name": "Thin", "srcs": ["thin/*.svg"], "position": {"wght": 300}},
+                                 "bold": {"style_name": "Bold", "srcs": ["bold/*.svg"], "position": {"wght": 700}}}.items(),
+                                reverse=r.random() < 0.5)),
             axes={"wght": ("Weight", 300)},
         )
     elif defect == "D6":
